@@ -13,13 +13,13 @@ Verdict(tr) ==
       ref == Ref(DeliveredFrames(tr), cfg.compress)
       closeFramePos == { i \in 1..n : IsFrame(tr[i], {OpClose}) }
       firstCloseFrame == IF closeFramePos = {} THEN 0 ELSE CHOOSE i \in closeFramePos : \A j \in closeFramePos : i <= j
-      closeCallPos == { i \in 1..n : tr[i].k = "call" /\ tr[i].m = "close" }
+      closeCallPos == { i \in 1..n : IsCloseCall(tr[i]) }
       closingPos == Pos(tr, LAMBDA r : IsEv(r, {"closing"}))
       closedPos  == Pos(tr, LAMBDA r : IsEv(r, {"closed"}))
       connectedPos == Pos(tr, LAMBDA r : IsEv(r, {"connected"}))
       \* the client had started closing before position p (frame written, failed, or close() called)
       clientClosing(p) == \E i \in 1..(p - 1) : IsFrame(tr[i], {OpClose}) \/ (tr[i].k = "wrf" /\ tr[i].op = OpClose)
-                                               \/ (tr[i].k = "call" /\ tr[i].m = "close")
+                                               \/ IsCloseCall(tr[i])
       ended(p) == \E i \in 1..(p - 1) : IsEv(tr[i], {"disconnected", "connect_fail", "rejected", "closed", "protocol_error"})
       \* application close() on a connected, not yet closing WebSocket
       \* (the frames written by the call itself are recorded just before the call record)
